@@ -316,6 +316,7 @@ class Interp(object):
         self.calls = 0
         self.trace_calls = None   # optional set collecting qnames reached
         self.depth = 0
+        self._disp = dict((n[2:], getattr(self, n)) for n in dir(self) if n.startswith('e_'))
 
     # ------------------------------------------------------------------ helpers
     def reset_fuel(self):
@@ -328,7 +329,7 @@ class Interp(object):
 
     def coerce(self, v, ty):
         """attach the declared type to ints / check ranges"""
-        if ty is None:
+        if ty is None or isinstance(v, (str, SV, bool, float, EV)):
             return v
         t = norm_ty(ty)
         if isinstance(v, RInt):
@@ -709,11 +710,12 @@ class Interp(object):
 
     # ------------------------------------------------------------------ eval
     def eval(self, e, frame, hint=None):
-        self.burn()
-        k = e['k']
-        m = getattr(self, 'e_' + k, None)
+        self.fuel -= 1
+        if self.fuel < 0:
+            raise Unanalysable('fuel exhausted (loop or recursion beyond the evaluator bound)')
+        m = self._disp.get(e['k'])
         if m is None:
-            raise Unanalysable('expression kind %s (line %s)' % (k, e.get('ln')))
+            raise Unanalysable('expression kind %s (line %s)' % (e['k'], e.get('ln')))
         return m(e, frame, hint)
 
     def e_int(self, e, frame, hint):
@@ -1760,6 +1762,8 @@ class Interp(object):
         if name == 'is_empty':
             return len(l) == 0
         if name in ('to_vec', 'clone', 'to_owned'):
+            if l and isinstance(l[0], (str, RInt, float)):
+                return list(l)
             return [deep_copy(x) for x in l]
         if name in ('as_slice', 'as_ref', 'borrow', 'into', 'deref', 'as_mut_slice'):
             return l
@@ -1825,7 +1829,14 @@ class Interp(object):
         if name in ('iter', 'into_iter', 'by_ref', 'cloned', 'copied', 'peekable'):
             return it
         if name == 'map':
-            return Iter([self.call_value(a[0], [x]) for x in rest])
+            f = a[0]
+            if isinstance(f, Closure) and len(f.params) == 1 and f.params[0]['k'] == 'pident' and f.body['k'] == 'mcall' \
+                    and not f.body['args'] and f.body['recv']['k'] == 'path' and f.body['recv']['segs'] == [f.params[0]['name']]:
+                mname = f.body['m']
+                if mname in ('to_string', 'clone', 'to_owned') and all(isinstance(x, str) for x in rest):
+                    return Iter(rest)
+                return Iter([self.mcall(x, mname, [], None, None) for x in rest])
+            return Iter([self.call_value(f, [x]) for x in rest])
         if name == 'filter':
             return Iter([x for x in rest if self.call_value(a[0], [x])])
         if name == 'filter_map':
